@@ -151,6 +151,15 @@ class UFn:
         self.decl, self.ret = decl, ret
 
 
+class OpaqueFn:
+    """a callee the contract declares opaque, used as a value (handed to map / partial): calling it logs like a direct call"""
+
+    __slots__ = ("name",)
+
+    def __init__(self, name):
+        self.name = name
+
+
 class Const:
     """immutable concrete Python container from module scope (dict / frozenset / list / tuple)"""
 
